@@ -269,6 +269,17 @@ func overlapCases(seed int64) []Case {
 			out = append(out, c)
 		}
 	}
+	// an honest block followed by a bad message for the same CID while the call still waits for another block
+	for _, k := range []int{1, 2} {
+		for _, bad := range []string{"garble:0", "other:1"} {
+			n++
+			out = append(out, Case{ID: fmt.Sprintf("o%d", n), Type: "eds", Chain: []string{"bitswap"}, Overlap: k, W: 2, BlockStore: "datastore",
+				Ctx: "deadline", CtxAt: "quiescent", Bs1: [][]string{{"correct", bad}, {}}, Bs: [][]string{{}, {"correct"}}})
+			n++
+			out = append(out, Case{ID: fmt.Sprintf("o%d", n), Type: "samples", Chain: []string{"bitswap"}, Overlap: k, W: 2, BlockStore: "datastore",
+				Ctx: "deadline", CtxAt: "quiescent", Bs1: [][]string{{"correct", bad}, {}}, Bs: [][]string{{}, {"correct"}}})
+		}
+	}
 	return out
 }
 
@@ -373,9 +384,16 @@ func (d *driver) judgeOverlap(c Case, o Outcome, k int) {
 	if o.Panic != "" || o.Hung {
 		return
 	}
+	// an honest candidate that arrives while the call wants the block satisfies that want; candidates
+	// that do not verify never do. So: the first call is complete iff every block was offered honestly in
+	// either round, a call that joined later iff that happened after it joined.
 	allCorrect := len(c.Bs) > 0
-	for _, offers := range c.Bs {
-		if len(offers) == 0 || offers[len(offers)-1] != "correct" {
+	for i := range c.Bs {
+		offers := append([]string(nil), c.Bs[i]...)
+		if k == 0 && i < len(c.Bs1) {
+			offers = append(offers, c.Bs1[i]...)
+		}
+		if !has(offers, "correct") {
 			allCorrect = false
 		}
 	}
